@@ -20,6 +20,8 @@
    "opfs"   every layout of an EPUB package document (prefixed / default namespace, title first / last, dc
             elements with attributes, version 2 / 3) x 3 property values.
    "alts"   pictures' alternative texts: (format x name x title x description), each absent / empty / blank / text.
+   "degens" degenerate-but-accepted inputs (no html part, no body, empty sheet, zero pages, ...) x every path form.
+   "names"  naming attributes of the containers of units (sheet / page / slide / chapter), absent ... non-ASCII.
    "srcs"   where a picture's bytes come from: (format x first / middle / last picture x http / https / dangling /
             outside the package).
    "lens"   picture geometry: ODF frames with every kind of length value for width / height / x / y, OOXML extents
@@ -98,9 +100,13 @@ HeadLayouts ==
         n \in {"lower", "title", "upper"}, g \in {"lower", "upper"}, a \in {"name-first", "content-first"} }
 \* OPF: package elements in the default namespace or prefixed, dc:title first or last, dc elements with
 \* or without attributes (id / opf:role / xml:lang), EPUB 2 or 3
+\* package namespace: IDPF 2007 as default namespace / with the opf: prefix, NO namespace at all, or the OEB 1.x
+\* package namespace (old converters); the dc elements directly below <metadata> or (OEB 1.x style) inside a
+\* <dc-metadata> wrapper followed by an <x-metadata> block
 OpfLayouts ==
-    { [prefix |-> p, titlepos |-> t, attrs |-> a, version |-> v] :
-        p \in {"default", "opf"}, t \in {"first", "last"}, a \in BOOLEAN, v \in {"2.0", "3.0"} }
+    { [prefix |-> p, titlepos |-> t, attrs |-> a, version |-> v, wrapper |-> w] :
+        p \in {"default", "opf", "none", "oeb1"}, t \in {"first", "last"}, a \in BOOLEAN, v \in {"2.0", "3.0"},
+        w \in {"plain", "dc-metadata"} }
 LayoutVals == { <<"a", "e1">>, <<"am", "lt", "a">>, <<"dq", "a", "sq">> }
 
 (* ---- alternative texts of pictures ---- *)
@@ -143,8 +149,25 @@ NcrRefs == {"hi", "lo", "pair", "beyond", "nul", "c1"}
 Ncrs == { [fmt |-> f, place |-> pl, ref |-> r] : f \in {"html", "mhtml"} \cap Formats,
                                                  pl \in {"title", "meta", "body", "alt", "cell"}, r \in NcrRefs }
 
+(* ---- degenerate-but-accepted inputs: containers without the main part the extractor looks for ---- *)
+\* every one is run with every designated path form: the path clause holds for EVERY result
+DegenInputs == {"mhtml-nohtml", "mhtml-onlyimage", "eml-nobody", "eml-onlyattachment", "xlsx-emptysheet", "ods-emptysheet",
+                "pdf-zeropages", "pdf-emptypage", "docx-nobody", "odt-nobody", "pptx-noslides", "odp-nopages",
+                "html-empty", "html-onlyhead", "rtf-empty", "txt-newline", "csv-empty", "json-empty", "md-blank",
+                "epub-nochapters", "zip-emptymember", "mbox-onemessage-nobody"}
+Degens == { [input |-> d, form |-> k] : d \in DegenInputs, k \in DOMAIN Forms }
+
+(* ---- names of the containers of units ---- *)
+\* optional naming attributes absent / empty / blank / 1 character / 31 characters / non-ASCII:
+\* ODS table:name, ODP / ODG draw:page draw:name, XLSX sheet name, PPTX p:cSld name, EPUB chapter <title>
+NameKinds == {"absent", "empty", "blank", "one", "long31", "nonascii"}
+Names == { [fmt |-> f, which |-> w, name |-> k] : f \in {"ods", "odp", "odg", "xlsx", "pptx", "epub"} \cap Formats,
+                                                  w \in {"first", "all"}, k \in NameKinds }
+
 Init ==
-    CASE Mode = "srcs" -> c \in { [kind |-> "src", x |-> a] : a \in Srcs }
+    CASE Mode = "degens" -> c \in { [kind |-> "degen", input |-> a.input, form |-> a.form, path |-> Forms[a.form]] : a \in Degens }
+      [] Mode = "names" -> c \in { [kind |-> "name", x |-> a] : a \in Names }
+      [] Mode = "srcs" -> c \in { [kind |-> "src", x |-> a] : a \in Srcs }
       [] Mode = "lens" -> c \in { [kind |-> "len", x |-> a] : a \in Lens }
       [] Mode = "pdfs" -> c \in { [kind |-> "pdf", x |-> a] : a \in PdfCases }
       [] Mode = "ncrs" -> c \in { [kind |-> "ncr", x |-> a] : a \in Ncrs }
@@ -171,6 +194,7 @@ Inv_NameOnly       == (c.kind = "path" /\ c.path # NoPath) =>
         Law_NameOnly(c.path, [c.path EXCEPT !.root = r, !.dirs = d, !.fexists = x[1], !.dexists = x[2]])
 Inv_FormsInUniverse == \A k \in DOMAIN Forms : Forms[k] = NoPath \/ PathWF(Forms[k])
 
+Inv_ReportedUnchanged == c.kind = "opf" => Law_ReportedUnchanged(<<116, 233>>, c.layout.wrapper = "dc-metadata")
 Inv_DecodeWellFormed == c.kind = "units" => Utf8OK(DecodeUnits(c.units))
 Inv_DecodeInvertsToUnits == c.kind = "units" =>
     /\ (WellPaired(c.units) => ToUnits(DecodeUnits(c.units)) = c.units)
